@@ -123,6 +123,9 @@ func (m *bsim) moreOutputs(ctx context.Context, moduleSet bufmodule.ModuleSet, i
 			return fmt.Errorf("buf build on disk: %w", err)
 		}
 		res.outputs["cli-image"] = string(data)
+		// and what `buf ls-files` and `buf lint` print for it
+		res.outputs["cli-ls-files"] = m.cliText(ctx, m.cliRoot, "ls-files", "--include-imports")
+		res.outputs["cli-lint"] = m.cliText(ctx, m.cliRoot, "lint", "--error-format", "json")
 	}
 
 	// lint
